@@ -42,3 +42,26 @@ else:
     s = s.replace('SEEDTABLE', '\n<!-- SEEDTABLE -->' + table + '<!-- /SEEDTABLE -->\n', 1)
 open(p, 'w').write(s)
 print(len(rows), 'rows')
+# behaviour-preserving changes
+brows = []
+for d in sorted(glob.glob(os.path.join(V, 'benign', '*'))):
+    bid = os.path.basename(d)
+    try:
+        meta = json.load(open(os.path.join(d, 'meta.json')))
+    except Exception:
+        meta = {}
+    summary = (meta.get('summary') or '').replace('\n', ' ').replace('|', '/')
+    summary = summary[:260] + ('...' if len(summary) > 260 else '')
+    res = []
+    for f in sorted(glob.glob(os.path.join(d, 'check.*.txt'))):
+        t = open(f).read()
+        m = re.search(r'property=(\S+) exit=(\d+)', t)
+        if m:
+            res.append('%s: %s' % (m.group(1), {'0': 'silent', '1': 'ALARM', '2': 'undecided'}.get(m.group(2), m.group(2))))
+    brows.append('| %s | %s | %s |' % (bid, summary, '; '.join(res) or 'not run yet'))
+btable = ('\n\n| change | what it does | quick checks of the touched properties |\n|---|---|---|\n' + '\n'.join(brows) + '\n')
+s = open(p).read()
+if '<!-- BENIGNTABLE -->' in s:
+    s = re.sub(r'<!-- BENIGNTABLE -->.*?<!-- /BENIGNTABLE -->', '<!-- BENIGNTABLE -->' + btable + '<!-- /BENIGNTABLE -->', s, flags=re.S)
+    open(p, 'w').write(s)
+print(len(brows), 'benign rows')
